@@ -130,6 +130,41 @@ def shrink(batch, payload, rec, target, max_replays=160, wall=45.0, timeout=60.0
 
     while best and best[-1] == 0:
         best = best[:-1]
+    # 0. operation-level pass (engines whose run is a list of operations): drop operations one at a time, greedily
+    nops = len((rec.get('history') or {}).get('ops') or [])
+    skip = list(payload.get('skip_ops') or [])
+    if nops:
+        changed = True
+        while changed and used < max_replays and time.monotonic() < t_end:
+            changed = False
+            cand_idx = [i for i in range(nops) if i not in skip]
+            pls = [dict(payload, choices=best, skip_ops=sorted(skip + [i])) for i in cand_idx]
+            results = {}
+            for idx, pl, r in batch.run(pls, timeout):
+                results[idx] = r
+            used += len(pls)
+            for j, i in enumerate(cand_idx):
+                r = results.get(j)
+                if r and not r.get('harness_error') and same_violation(r, target):
+                    skip.append(i)
+                    best_rec = r
+                    changed = True
+                    # take every other single removal that also kept the violation, then re-verify the combination
+                    more = [cand_idx[j2] for j2 in range(j + 1, len(cand_idx))
+                            if results.get(j2) and not results[j2].get('harness_error') and same_violation(results[j2], target)]
+                    if more:
+                        trial = sorted(set(skip + more))
+                        rr = None
+                        for _, _, r2 in batch.run([dict(payload, choices=best, skip_ops=trial)], timeout):
+                            rr = r2
+                        used += 1
+                        if rr and not rr.get('harness_error') and same_violation(rr, target):
+                            skip = trial
+                            best_rec = rr
+                    break
+        payload['skip_ops'] = sorted(skip)
+        if skip:
+            return best, best_rec, used
     progress = True
     while progress and used < max_replays and time.monotonic() < t_end:
         progress = False
